@@ -344,7 +344,7 @@ func ruleRunsInnerSticky(c *Ctx, r *R) {
 	}
 	k := 0
 	for _, e := range pf.Exits(fn, ss(0)) {
-		okc, isC := e.Ret.Results[1].(*ssa.Const)
+		okc, isC := returnedValue(e.Ret, 1).(*ssa.Const)
 		if !isC || okc.Value == nil || okc.Value.String() != "false" {
 			continue
 		}
@@ -410,7 +410,7 @@ func ruleEqualUniversal(c *Ctx, r *R) {
 			}
 			// only returns taken before the inner loop moves on: the block does not lead back to the pull
 			n++
-			k, isConst := ret.Results[0].(*ssa.Const)
+			k, isConst := returnedValue(ret, 0).(*ssa.Const)
 			good := isConst && k.Value != nil && k.Value.String() == "false"
 			r.ok(good, "iterator.Equal|verdict-inside-loop#"+itoa(n), retPos(ret), "inside the loop over the other iterators Equal may only return the constant false: any other verdict is given before the remaining iterators were compared (Equal(a, a, longer) would be true)")
 		})
